@@ -1,4 +1,4 @@
-\* quick, safety: the dialer node at the code's grain, every interleaving, no clocks; the listener side is an adversary (2 moves)
+\* full, safety: dialer node, adversary with 2 moves, Shutdown at any point
 SPECIFICATION Spec
 CONSTANTS
   Links = {1}
@@ -14,7 +14,7 @@ CONSTANTS
   CancelOnReturn = TRUE
   BSilence = 0
   BCut = 0
-  ShutNodes = {}
+  ShutNodes = {"a"}
   CancelNodes = {}
   BReborn = 0
   BAdv = 2
